@@ -470,7 +470,10 @@ func (a Int) divMod(b Int) (Object, Object, error) {
 	if b == 0 {
 		return nil, nil, divisionByZero
 	}
-	// Can't overflow
+	// Can only overflow for IntMin / -1
+	if a == IntMin && b == -1 {
+		return (*BigInt)(big.NewInt(int64(a))).divMod((*BigInt)(big.NewInt(int64(b))))
+	}
 	result, remainder := Int(a/b), Int(a%b)
 	// Implement floor division
 	negativeResult := (a < 0)
